@@ -389,6 +389,106 @@ func routeKind(r string) string {
 	return "pull"
 }
 
+// c01StartupCrashes enumerates the crash points of a first start completely:
+// on a fresh database the process is killed at the h-th occurrence of each
+// store-level point for h = 1, 2, ... until a start gets healthy without the
+// point having fired (schema creation, migrations, first checkpoint). After
+// each kill a restart without armed points must come up on that database,
+// accept a message with 202 and list it; the same database is then killed and
+// restarted once more at the same point (crash during the recovery start).
+func c01StartupCrashes(c *vlib.Ctx, root string) {
+	points := []string{"sqlite.commit.before", "sqlite.commit.after", "sqlite.checkpoint.before", "sqlite.checkpoint.after"}
+	type job struct {
+		point string
+		hit   int
+	}
+	for _, pt := range points {
+		exhausted := false
+		for base := 1; base <= 24 && !exhausted; base += 4 {
+			var mu sync.Mutex
+			parallel(4, 4, func(k int) {
+				h := base + k
+				dir := filepath.Join(root, fmt.Sprintf("startup-%s-%d", strings.ReplaceAll(pt, ".", "_"), h))
+				defer os.RemoveAll(dir)
+				p, err := l3.New(dir, c01Config)
+				if err != nil {
+					c.Inconclusive("C01 startup: " + err.Error())
+					return
+				}
+				killLog := filepath.Join(dir, "kill.log")
+				env := []string{"VERIF_SQLITE_CHECKPOINT_INTERVAL=40ms", fmt.Sprintf("VERIF_POINTS=%s=kill@%d", pt, h), "VERIF_POINTS_LOG=" + killLog}
+				err = p.StartHealthy(l3.StartOpts{Env: env}, 60*time.Second)
+				if err == nil {
+					// healthy with the point still armed: the first start has fewer than h occurrences
+					p.Kill()
+					mu.Lock()
+					exhausted = true
+					mu.Unlock()
+					return
+				}
+				if _, rerr := os.ReadFile(killLog); rerr != nil || !p.Exited() {
+					c.Inconclusive(fmt.Sprintf("C01 startup: start with %s@%d neither healthy nor killed: %v", pt, h, err))
+					p.Kill()
+					return
+				}
+				c.Count("evaluations", 1)
+				c.Count("startup_crash_points", 1)
+				c.Distinct("nontrivial", fmt.Sprintf("startup_kill:%s@%d", pt, h))
+				c.Distinct("points_killed_at", pt)
+				for round := 0; round < 2; round++ {
+					if err := p.StartHealthy(l3.StartOpts{Env: []string{"VERIF_SQLITE_CHECKPOINT_INTERVAL=40ms"}}, 60*time.Second); err != nil {
+						if p.Exited() {
+							c.Violation(vlib.Signature{"class": "restart_failed", "crash": "startup"}, fmt.Sprintf("the process does not come up on the database left by a kill at %s@%d during the first start (round %d): %v", pt, h, round, err),
+								map[string]any{"point": pt, "hit": h, "stderr_tail": p.LogTail(20)})
+						} else {
+							c.Inconclusive("C01 startup: restart not healthy within 60s: " + err.Error())
+						}
+						p.Kill()
+						return
+					}
+					mk := fmt.Sprintf("st%dr%d", h, round)
+					resp := p.Ingress("/p1", []byte("mk:"+mk+":"), map[string]string{"X-Verif-Marker": mk})
+					if resp.Status != 202 {
+						c.Violation(vlib.Signature{"class": "restart_refuses_traffic", "crash": "startup"}, fmt.Sprintf("after a kill at %s@%d during the first start the restarted process answers %d to a valid request", pt, h, resp.Status), nil)
+					}
+					p.Kill()
+					// crash once more, now during a start on the existing database
+					if round == 0 {
+						_ = os.Remove(killLog)
+						if err := p.StartHealthy(l3.StartOpts{Env: env}, 60*time.Second); err == nil {
+							p.Kill()
+						}
+					}
+				}
+				// final clean start: both acknowledged markers must be there
+				if err := p.StartHealthy(l3.StartOpts{Env: []string{"VERIF_SQLITE_CHECKPOINT_INTERVAL=40ms"}}, 60*time.Second); err != nil {
+					if p.Exited() {
+						c.Violation(vlib.Signature{"class": "restart_failed", "crash": "startup"}, fmt.Sprintf("the process does not come up after repeated kills at %s@%d: %v", pt, h, err), nil)
+					}
+					p.Kill()
+					return
+				}
+				msgs, lerr := p.ListAll()
+				if lerr == nil {
+					have := map[string]bool{}
+					for _, m := range msgs {
+						have[m.Headers["X-Verif-Marker"]] = true
+					}
+					for round := 0; round < 2; round++ {
+						if mk := fmt.Sprintf("st%dr%d", h, round); !have[mk] {
+							c.Violation(vlib.Signature{"class": "acked_message_lost", "route": "pull", "crash": "startup"}, fmt.Sprintf("marker %s was acknowledged with 202 but is gone after kills at %s@%d", mk, pt, h), nil)
+						}
+					}
+				}
+				p.Stop()
+				if !p.Exited() {
+					p.Kill()
+				}
+			})
+		}
+	}
+}
+
 // c01Trial: start, traffic, crash, restart, audit, drain; up to `gens` generations on one database.
 func c01Trial(c *vlib.Ctx, root string, idx int, crashes []c01Crash) {
 	r := vlib.Derive(c.Seed, "C01", idx)
@@ -614,6 +714,7 @@ func C01(c *vlib.Ctx) {
 		jobs = append(jobs, job{i, crashes})
 	}
 	parallel(len(jobs), 8, func(k int) { c01Trial(c, root, jobs[k].idx, jobs[k].crashes) })
+	c01StartupCrashes(c, root)
 	c01Strace(c, root)
 	if c.Counter("restart_audits") == 0 {
 		c.Inconclusive("C01: no restart audit completed")
